@@ -324,6 +324,11 @@ type Info struct {
 func Inspect(node datamodel.Node) (Info, error) {
 	var res Info
 
+	// anything beyond the signature and the SigPayload would not be covered by the signature
+	if node.Kind() != datamodel.Kind_List || node.Length() != 2 {
+		return Info{}, fmt.Errorf("expected a list of two and only two elements as envelope")
+	}
+
 	signatureNode, err := node.LookupByIndex(0)
 	if err != nil {
 		return Info{}, err
